@@ -2,6 +2,7 @@ package props
 
 import (
 	"fmt"
+	"go/constant"
 	"go/token"
 	"go/types"
 	"os"
@@ -902,6 +903,9 @@ func c13(r *core.Run) {
 			if derivesFromField(ci.X, "IndexQuery", "Limit") {
 				g0 = true
 			}
+			if f, ok := core.LoadedField(ci.X); ok && c13ScanStateFields(p)[f] == "limit" {
+				g0 = true // the limit kept in a member of the scan's window struct
+			}
 		}
 		r.Check(g0, "W1", core.FuncName(fc), "limit==0-returns-before-View", p.InstrPos(view), "a zero limit never touches the database", "limit 0 is not short-circuited")
 	}
@@ -959,8 +963,12 @@ func c13WindowAfterFilter(r *core.Run, rule string, fc *ssa.Function) {
 	for _, f2 := range withAnon(fc) {
 		// the filter value: the query's FilterKeys field, a copy of it, or the parameter of a
 		// private helper that every caller hands such a value
+		stateFields := c13ScanStateFields(p)
 		isFilter := func(v ssa.Value) bool {
 			for _, a := range paramArgs(p, v, 0) {
+				if f, ok := core.LoadedField(a); ok && stateFields[f] == "filter" {
+					continue // the filter kept in a member of the scan's matcher struct
+				}
 				if !derivesFromField(a, "IndexQuery", "FilterKeys") {
 					return false
 				}
@@ -970,6 +978,43 @@ func c13WindowAfterFilter(r *core.Run, rule string, fc *ssa.Function) {
 		isFilterCall := func(v ssa.Value) bool {
 			c, ok := v.(*ssa.Call)
 			return ok && core.IsDynamic(c) && !c.Common().IsInvoke() && isFilter(c.Common().Value)
+		}
+		// acceptor: a private helper that answers with the filter's own verdict - every result is the
+		// filter call itself, the constant false, or the constant true on the edge where no filter is set
+		isAcceptor := func(cal *ssa.Function) bool {
+			if cal == nil || !p.IsPrivateHelper(cal) || cal.Signature.Results().Len() != 1 {
+				return false
+			}
+			nCall := 0
+			for _, ret := range core.Returns(cal) {
+				for _, src := range phiSources(ret.Results[0]) {
+					switch {
+					case isFilterCall(src.V):
+						nCall++
+					case isConstBool(src.V, false):
+					case isConstBool(src.V, true):
+						onNil := false
+						for _, ed := range dominatingEdges(ret) {
+							ci := core.Cond(ed.If.Cond)
+							if ci.Kind == "nilcmp" && isFilter(ci.X) {
+								truth := ed.Succ == 0
+								if ci.Negate {
+									truth = !truth
+								}
+								if (ci.Op == token.EQL) == truth {
+									onNil = true
+								}
+							}
+						}
+						if !onNil || src.Pred != nil {
+							return false
+						}
+					default:
+						return false
+					}
+				}
+			}
+			return nCall > 0
 		}
 		has := false
 		for _, c := range helperCalls(p, f2) {
@@ -1008,6 +1053,12 @@ func c13WindowAfterFilter(r *core.Run, rule string, fc *ssa.Function) {
 				}
 				return 0, true
 			}
+			if ac, ok := cnd.(*ssa.Call); ok && isAcceptor(ac.Common().StaticCallee()) {
+				if sc == 0 {
+					return 1, true
+				}
+				return 0, true
+			}
 			if bo, ok := cnd.(*ssa.BinOp); ok && (bo.Op == token.EQL || bo.Op == token.NEQ) {
 				x, y := bo.X, bo.Y
 				if c, isC := x.(*ssa.Const); isC && c.IsNil() {
@@ -1026,22 +1077,7 @@ func c13WindowAfterFilter(r *core.Run, rule string, fc *ssa.Function) {
 		// the window counters may be kept in a small struct (window{skip: iq.Offset, remaining: limit})
 		// and counted down by its methods: a field is a window counter when it is initialised from the
 		// query's offset / limit
-		counterField := map[core.Field]string{}
-		for _, g := range p.FuncsOfPkg("store/badgerstore") {
-			for _, b := range g.Blocks {
-				for _, in := range b.Instrs {
-					if st, ok := in.(*ssa.Store); ok {
-						if f, ok := core.FieldOf(st.Addr); ok && !strings.HasSuffix(f.Struct, "IndexQuery") {
-							if derivesFromField(st.Val, "IndexQuery", "Offset") {
-								counterField[f] = "offset"
-							} else if derivesFromField(st.Val, "IndexQuery", "Limit") {
-								counterField[f] = "limit"
-							}
-						}
-					}
-				}
-			}
-		}
+		counterField := c13ScanStateFields(p)
 		var scope []*ssa.Function
 		for _, h := range p.Helpers(f2) {
 			scope = append(scope, h)
@@ -1695,13 +1731,63 @@ func c14(r *core.Run) {
 				if !ok {
 					continue
 				}
-				ex, ok := iff.Cond.(*ssa.Extract)
-				if !ok || ex.Index != 1 {
-					continue
+				isResetFlag := func(v ssa.Value) bool {
+					ex, ok := v.(*ssa.Extract)
+					if !ok || ex.Index != 1 {
+						return false
+					}
+					c, ok := ex.Tuple.(*ssa.Call)
+					return ok && c.Common().IsInvoke() && c.Common().Method.Name() == "Events"
 				}
-				c, ok := ex.Tuple.(*ssa.Call)
-				if !ok || !c.Common().IsInvoke() || c.Common().Method.Name() != "Events" {
-					continue
+				if !isResetFlag(iff.Cond) {
+					// ... or the answer of a classifier helper handed the flag: the constant it returns
+					// exactly on the flag's true edge (switch classifyChange(evs, reset) { case outcomeReset: ...)
+					bo, ok := iff.Cond.(*ssa.BinOp)
+					if !ok || bo.Op != token.EQL {
+						continue
+					}
+					call, ok := bo.X.(*ssa.Call)
+					k, isK := bo.Y.(*ssa.Const)
+					if !ok || !isK || k.Value == nil {
+						continue
+					}
+					cal := call.Common().StaticCallee()
+					if cal == nil || len(cal.Blocks) == 0 || cal.Pkg != fn.Pkg || cal.Signature.Results().Len() != 1 {
+						continue
+					}
+					var flagPrm *ssa.Parameter
+					for i, a := range call.Common().Args {
+						if isResetFlag(a) && i < len(cal.Params) {
+							flagPrm = cal.Params[i]
+						}
+					}
+					if flagPrm == nil {
+						continue
+					}
+					onFlag, others := 0, 0
+					for _, ret := range core.Returns(cal) {
+						for _, src := range phiSources(ret.Results[0]) {
+							c, isC := src.V.(*ssa.Const)
+							if !isC || c.Value == nil || c.Value.Kind() != k.Value.Kind() || !constant.Compare(c.Value, token.EQL, k.Value) {
+								continue
+							}
+							behindFlag := false
+							for _, ed := range srcEdges(ret, src) {
+								cnd, succ := ed.Norm()
+								if cnd == ssa.Value(flagPrm) && succ == 0 {
+									behindFlag = true
+								}
+							}
+							if behindFlag {
+								onFlag++
+							} else {
+								others++
+							}
+						}
+					}
+					if onFlag == 0 || others > 0 {
+						continue
+					}
 				}
 				found = true
 				tb := b.Succs[0]
@@ -2606,6 +2692,30 @@ func c12InitUnit(r *core.Run, cl *ssa.Function, rel string) bool {
 	// edge on the reader's result that excludes "found"
 	notFound := func(e edgeCond) bool {
 		cnd, succ := e.Norm()
+		// the reader hands back Txn.Get's own error, compared with ErrKeyNotFound here
+		if bo, ok := cnd.(*ssa.BinOp); ok && (bo.Op == token.EQL || bo.Op == token.NEQ) && core.Strip(bo.X) == get.Value() {
+			if g, ok := loadedGlobal(bo.Y); ok && g == "ErrKeyNotFound" && (bo.Op == token.EQL) == (succ == 0) {
+				if cal := get.Common().StaticCallee(); cal != nil && cal.Signature.Results().Len() == 1 {
+					all := len(core.Returns(cal)) > 0
+					for _, ret := range core.Returns(cal) {
+						for _, src := range phiSources(ret.Results[0]) {
+							ex, ok := core.Strip(src.V).(*ssa.Extract)
+							if !ok || ex.Index != 1 {
+								all = false
+								continue
+							}
+							gc, ok := ex.Tuple.(*ssa.Call)
+							if !ok || !isBadgerCall(gc, "Txn", "Get") {
+								all = false
+							}
+						}
+					}
+					if all {
+						return true
+					}
+				}
+			}
+		}
 		ex, ok := cnd.(*ssa.Extract)
 		if !ok || ex.Tuple != get.Value() {
 			return false
@@ -3323,6 +3433,37 @@ func c13PrefixInsideKey(r *core.Run, rule, rel string) {
 	// ... and the position handed back by a helper that searched for it (sep, err := separatorIndex(k))
 	for changed, round := true, 0; changed && round < 3; round++ {
 		changed = false
+		// ... or handed on to a helper that decides with it (accepts(entry, sep))
+		for _, f2 := range scope {
+			for _, c := range core.Calls(f2) {
+				cal := c.Common().StaticCallee()
+				if cal == nil || cal == f2 || len(cal.Blocks) == 0 || cal.Pkg != f2.Pkg {
+					continue
+				}
+				args := c.Common().Args
+				for i, a := range args {
+					isSep := false
+					for _, sp := range sepOf[f2] {
+						if core.Strip(a) == sp {
+							isSep = true
+						}
+					}
+					if !isSep || i >= len(cal.Params) {
+						continue
+					}
+					dup := false
+					for _, have := range sepOf[cal] {
+						if have == ssa.Value(cal.Params[i]) {
+							dup = true
+						}
+					}
+					if !dup {
+						sepOf[cal] = append(sepOf[cal], cal.Params[i])
+						changed = true
+					}
+				}
+			}
+		}
 		for _, f2 := range scope {
 			for _, c := range core.Calls(f2) {
 				cal := c.Common().StaticCallee()
@@ -3891,6 +4032,40 @@ func valueOrigin(p *core.Prog, v ssa.Value, depth int) ssa.Value {
 			v = as[0]
 			continue
 		}
+		// the result of a private helper that hands on one value (next to nil / zero results on its
+		// error returns): dta, err := encode(value)
+		var call *ssa.Call
+		idx := 0
+		if ex, ok := v.(*ssa.Extract); ok {
+			call, _ = ex.Tuple.(*ssa.Call)
+			idx = ex.Index
+		} else if c, ok := v.(*ssa.Call); ok {
+			call = c
+		}
+		if call != nil {
+			if cal := call.Common().StaticCallee(); cal != nil && p.IsPrivateHelper(cal) {
+				var only ssa.Value
+				n := 0
+				for _, ret := range core.Returns(cal) {
+					if idx >= len(ret.Results) {
+						continue
+					}
+					for _, src := range phiSources(ret.Results[idx]) {
+						if _, isConst := src.V.(*ssa.Const); isConst {
+							continue
+						}
+						if only == nil || core.Strip(only) != core.Strip(src.V) {
+							n++
+						}
+						only = src.V
+					}
+				}
+				if n == 1 {
+					v = only
+					continue
+				}
+			}
+		}
 		return v
 	}
 	return v
@@ -3921,4 +4096,28 @@ func cellOfAddr(v ssa.Value) ssa.Value {
 		v = b
 	}
 	return v
+}
+
+// c13ScanStateFields: members of the scan's own structs that are initialised
+// from the query's offset, limit or key filter (window{skip: iq.Offset, ...}).
+func c13ScanStateFields(p *core.Prog) map[core.Field]string {
+	out := map[core.Field]string{}
+	for _, g := range p.FuncsOfPkg("store/badgerstore") {
+		for _, b := range g.Blocks {
+			for _, in := range b.Instrs {
+				if st, ok := in.(*ssa.Store); ok {
+					if f, ok := core.FieldOf(st.Addr); ok && !strings.HasSuffix(f.Struct, "IndexQuery") {
+						if derivesFromField(st.Val, "IndexQuery", "Offset") {
+							out[f] = "offset"
+						} else if derivesFromField(st.Val, "IndexQuery", "Limit") {
+							out[f] = "limit"
+						} else if derivesFromField(st.Val, "IndexQuery", "FilterKeys") {
+							out[f] = "filter"
+						}
+					}
+				}
+			}
+		}
+	}
+	return out
 }
